@@ -16,8 +16,29 @@ pub fn main(args: &[String]) -> i32 {
             println!("lossless: {:?}", crate::props::c01::lossless(&text, &tree));
             0
         }
+        Some("lua_ast") => {
+            // vcheck --tool lua_ast <level 0..5> <count> [seed] : print generated programs and the luars verdict
+            use crate::gens::lua_ast as la;
+            use proptest::strategy::{Strategy, ValueTree};
+            use proptest::test_runner::{Config, RngSeed, TestRunner};
+            let li: usize = args.get(1).and_then(|s| s.parse().ok()).unwrap_or(4);
+            let n: usize = args.get(2).and_then(|s| s.parse().ok()).unwrap_or(5);
+            let seed: u64 = args.get(3).and_then(|s| s.parse().ok()).unwrap_or(1);
+            let level = la::Level::ALL[li % 6];
+            let mut runner = TestRunner::new(Config { rng_seed: RngSeed::Fixed(seed), ..Config::default() });
+            let strat = (la::program(level, la::Size::medium()), la::layout());
+            let mut vm = crate::oracle::luavm::Lua55::new();
+            for _ in 0..n {
+                let (p, l) = strat.new_tree(&mut runner).unwrap().current();
+                let r = la::render(&p, &l);
+                println!("-- ===== level {} layout {:?} tokens {} =====", level.name(), l.mode, r.tokens.len());
+                println!("{}", r.text);
+                println!("-- luars: {:?}", vm.compile(&r.text));
+            }
+            0
+        }
         _ => {
-            eprintln!("tools: parse");
+            eprintln!("tools: parse | lua_ast");
             2
         }
     }
